@@ -390,14 +390,17 @@ pub fn index_torn_by_power_loss(opts: &StoreOpts, power_loss: bool, v: &Violatio
 /// failure comes out of the B+tree code. (A root or leaf split writes several pages and the
 /// header; a crash between them leaves a header that points at a page not written yet, or -
 /// silently - an old root that no longer reaches the half moved to the new sibling: history
-/// then returns only correct entries but not all of them, class `history_entries_lost`.)
+/// then returns only correct entries but not all of them, class `history_entries_lost`; or both
+/// the old leaf and its new sibling are reachable and entries come twice / erased ones come
+/// back, class `history_mismatch`. Any wrong answer of the index at a crash point that lies
+/// strictly inside a run of index page writes is this finding; everywhere else it is not.)
 pub fn index_update_interrupted(opts: &StoreOpts, ops: &[Op], n: usize, v: &Violation) -> bool {
 	let page_write = |o: Option<&Op>| matches!(o, Some(Op::Write { off, data, .. }) if off % 4096 == 0 && data.len() == 4096);
 	opts.versioned_index
 		&& n >= 1
 		&& page_write(ops.get(n - 1))
 		&& (page_write(ops.get(n)) || matches!(ops.get(n), Some(Op::Fsync { .. })))
-		&& (v.class == "history_entries_lost"
+		&& (matches!(v.class.as_str(), "history_entries_lost" | "history_mismatch" | "get_at_mismatch")
 			|| (matches!(v.class.as_str(), "panic" | "open_failed" | "read_error" | "reopen_failed" | "recover_failed")
 				&& (v.detail.contains("B+ tree error") || v.detail.contains("src/bplustree/") || (v.detail.contains("out of range for slice of length 0") && v.detail.contains("/repo/src/lib.rs:")))))
 }
